@@ -11,6 +11,13 @@
 //                             (what fq builds for `[a,b]|tobits`); equal offsets give empty parts
 //          s:<off>:<b1>,…     bitio.SectionReader [off, off+L) of a MultiReader over off junk bits + the input + junk
 //          k:<k>              a reader that delivers at most k bits per ReadBitsAt call
+//          f:<w>:<n>:<p1>,…   a REGULAR FILE of n filler bytes (fillerByte) on disk, opened by the real interpreter
+//                             (`fq -d verif_c02 . file`: interp._open's aheadreadseeker → progressreadseeker →
+//                             ctxreadseeker → os.File stack under bitio.IOBitReadSeeker); the case line's <hex> is
+//                             the window of the file that starts at byte w, <pos> is relative to it; before the
+//                             call one byte is read at each absolute byte offset p1,… (a sequential decode's
+//                             read-ahead windows)
+// hex    segments joined by `.`, each `<hexbytes>` or `<n>x<hexbytes>` (the bytes repeated n times)
 //        the expected result does not depend on the shape: the driver ignores it
 // nx     after the call a further TryUintBits(k), k = min(16, bits left) is made at the position the
 //        call left: its value v (nx:0:0 at the end of the input, nx:e if it failed)
@@ -28,7 +35,12 @@
 package main
 
 import (
+	"bytes"
 	"context"
+	"io/fs"
+	"os"
+	"path/filepath"
+
 	"errors"
 	"fmt"
 	"io"
@@ -39,7 +51,9 @@ import (
 	"strconv"
 	"strings"
 
+	_ "github.com/wader/fq/format/all"
 	"github.com/wader/fq/internal/verifharness/hlib"
+	"github.com/wader/fq/pkg/interp"
 	"github.com/wader/fq/pkg/bitio"
 	"github.com/wader/fq/pkg/decode"
 	"golang.org/x/text/encoding"
@@ -169,7 +183,12 @@ func fmtValue(v reflect.Value) string {
 }
 
 // callReader performs one reader call on d and returns the observation.
-func callReader(d *decode.D, pos int64, endian string, method string, args []string) string {
+func callReader(d *decode.D, base int64, primes []int64, pos int64, endian string, method string, args []string) string {
+	for _, p := range primes {
+		d.SeekAbs(p * 8)
+		d.U8()
+	}
+	pos += base
 	m, ok := dType.MethodByName(method)
 	if !ok {
 		return "nomethod"
@@ -232,7 +251,7 @@ func callReader(d *decode.D, pos int64, endian string, method string, args []str
 		outcome = fmtValue(out[0])
 	}()
 
-	obs := fmt.Sprintf("%s %d", outcome, d.Pos())
+	obs := fmt.Sprintf("%s %d", outcome, d.Pos()-base)
 	if isField {
 		c, _ := d.Value.V.(*decode.Compound)
 		switch {
@@ -242,7 +261,7 @@ func callReader(d *decode.D, pos int64, endian string, method string, args []str
 			obs += " c-"
 		case len(c.Children) == 1:
 			ch := c.Children[0]
-			obs += fmt.Sprintf(" c%d:%d", ch.Range.Start, ch.Range.Len)
+			obs += fmt.Sprintf(" c%d:%d", ch.Range.Start-base, ch.Range.Len)
 			if ch.Name != "x" {
 				obs += "!name"
 			}
@@ -389,20 +408,168 @@ func buildReader(shape string, L int64, buf []byte) (bitio.ReaderAtSeeker, error
 
 // runCase decodes `buf` (L bits, delivered in `shape`) with a one-off format whose DecodeFn performs the call.
 func runCase(o *hlib.Out, shape string, L int64, buf []byte, pos int64, endian string, method string, args []string) string {
+	return runCaseHex(o, shape, L, buf, hlib.Hex(buf), pos, endian, method, args)
+}
+
+// fillerByte: the content of the files of the f: shape
+func fillerByte(i int64) byte { return byte(i*131 + (i>>8)*17 + (i>>16)*29 + 0x5b) }
+
+var fileCache = map[int64]string{}
+
+func fillerFile(n int64) (dir string, name string, err error) {
+	name = fmt.Sprintf("c02_%d.bin", n)
+	dir = os.Getenv("VERIF_WORK")
+	if dir == "" {
+		dir = os.TempDir()
+	}
+	if _, ok := fileCache[n]; ok {
+		return dir, name, nil
+	}
+	b := make([]byte, n)
+	for i := range b {
+		b[i] = fillerByte(int64(i))
+	}
+	if err := os.WriteFile(filepath.Join(dir, name), b, 0o644); err != nil {
+		return "", "", err
+	}
+	fileCache[n] = name
+	return dir, name, nil
+}
+
+// the pending call of the registered format verif_c02 (the interpreter runs the DecodeFn)
+var pending func(d *decode.D)
+
+var verifGroup = &decode.Group{Name: "verif_c02"}
+
+func init() {
+	interp.RegisterFormat(verifGroup, &decode.Format{
+		Description: "C02 harness: performs the pending reader call",
+		DecodeFn: func(d *decode.D) any {
+			if pending != nil {
+				pending(d)
+			}
+			return nil
+		},
+	})
+}
+
+type vout struct{ buf *bytes.Buffer }
+
+func (o vout) Write(p []byte) (int, error) { return o.buf.Write(p) }
+func (vout) Size() (int, int)              { return 120, 25 }
+func (vout) IsTerminal() bool              { return false }
+
+type vin struct{ interp.FileReader }
+
+func (vin) Size() (int, int) { return 120, 25 }
+func (vin) IsTerminal() bool { return false }
+
+type vos struct {
+	args []string
+	fsys fs.FS
+	out  *bytes.Buffer
+}
+
+func (o *vos) Platform() interp.Platform                    { return interp.Platform{OS: "verif", Arch: "verif"} }
+func (o *vos) Stdin() interp.Input                          { return vin{interp.FileReader{R: bytes.NewReader(nil)}} }
+func (o *vos) Stdout() interp.Output                        { return vout{o.out} }
+func (o *vos) Stderr() interp.Output                        { return vout{o.out} }
+func (o *vos) InterruptChan() chan struct{}                 { return nil }
+func (o *vos) Args() []string                               { return o.args }
+func (o *vos) Environ() []string                            { return nil }
+func (o *vos) ConfigDir() (string, error)                   { return "/config", nil }
+func (o *vos) FS() fs.FS                                    { return o.fsys }
+func (o *vos) Readline(interp.ReadlineOpts) (string, error) { return "", io.EOF }
+func (o *vos) History() ([]string, error)                   { return nil, nil }
+
+// runFileCase: the call on a regular file opened by the real interpreter
+func runFileCase(shape string, fn func(d *decode.D)) string {
+	f := strings.Split(shape, ":")
+	if len(f) != 4 {
+		return "badshape"
+	}
+	n, err := strconv.ParseInt(f[2], 10, 64)
+	if err != nil || n <= 0 || n > 64<<20 {
+		return "badshape"
+	}
+	dir, name, err := fillerFile(n)
+	if err != nil {
+		return "nofile"
+	}
+	pending = fn
+	defer func() { pending = nil }()
+	vo := &vos{args: []string{"fq", "-d", "verif_c02", "empty", name}, fsys: os.DirFS(dir), out: &bytes.Buffer{}}
+	res, panicked := hlib.Catch(func() string {
+		i, err := interp.New(vo, interp.DefaultRegistry)
+		if err != nil {
+			return "interp-new-error"
+		}
+		ctx, cancel := context.WithCancel(context.Background())
+		defer cancel()
+		err = i.Main(ctx, vo.Stdout(), "verif")
+		i.Stop()
+		if err != nil {
+			return "main-error"
+		}
+		return ""
+	})
+	if panicked {
+		return "outer-panic"
+	}
+	return res
+}
+
+func runCaseHex(o *hlib.Out, shape string, L int64, buf []byte, hexText string, pos int64, endian string, method string, args []string) string {
 	op := "rd "
 	if shape != "" {
 		op += shape + " "
 	}
-	op += fmt.Sprintf("%d %s %d %s %s", L, hlib.Hex(buf), pos, endian, method)
+	op += fmt.Sprintf("%d %s %d %s %s", L, hexText, pos, endian, method)
 	if len(args) > 0 {
 		op += " " + strings.Join(args, " ")
 	}
 	obs := "nodecode"
+	if strings.HasPrefix(shape, "f:") {
+		sf := strings.Split(shape, ":")
+		var base int64
+		var primes []int64
+		ok := len(sf) == 4
+		if ok {
+			w, err := strconv.ParseInt(sf[1], 10, 64)
+			ps, err2 := parseInts(sf[3])
+			ok = err == nil && err2 == nil
+			base = w * 8
+			for _, p := range ps {
+				primes = append(primes, int64(p))
+			}
+		}
+		res := "badshape"
+		if ok {
+			// the window given on the case line must be what the file holds there
+			for i, b := range buf {
+				if fillerByte(base/8+int64(i)) != b {
+					ok = false
+				}
+			}
+			if !ok {
+				res = "window-is-not-the-file-content"
+			} else {
+				res = runFileCase(shape, func(d *decode.D) {
+					obs = callReader(d, base, primes, pos, endian, method, args)
+				})
+			}
+		}
+		if res != "" {
+			obs = res + " " + obs
+		}
+		o.Case(op, obs)
+		return obs
+	}
 	f := &decode.Format{
 		Name:     "verif_c02",
 		RootName: "verif_c02",
 		DecodeFn: func(d *decode.D) any {
-			obs = callReader(d, pos, endian, method, args)
+			obs = callReader(d, 0, nil, pos, endian, method, args)
 			return nil
 		},
 	}
@@ -425,6 +592,47 @@ func runCase(o *hlib.Out, shape string, L int64, buf []byte, pos int64, endian s
 	}
 	o.Case(op, obs)
 	return obs
+}
+
+// expandHex: `.`-joined segments, each `<hex>` or `<n>x<hex>`
+func expandHex(s string) ([]byte, bool) {
+	if s == "-" {
+		return nil, true
+	}
+	var out []byte
+	for _, seg := range strings.Split(s, ".") {
+		n := 1
+		if i := strings.IndexByte(seg, 'x'); i >= 0 {
+			v, err := strconv.Atoi(seg[:i])
+			if err != nil || v < 0 || v > 1<<24 {
+				return nil, false
+			}
+			n, seg = v, seg[i+1:]
+		}
+		b, err := hexDecode(seg)
+		if err != nil {
+			return nil, false
+		}
+		for i := 0; i < n; i++ {
+			out = append(out, b...)
+		}
+	}
+	return out, true
+}
+
+func hexDecode(s string) ([]byte, error) {
+	if len(s)%2 != 0 {
+		return nil, fmt.Errorf("odd hex")
+	}
+	b := make([]byte, len(s)/2)
+	for i := range b {
+		v, err := strconv.ParseUint(s[2*i:2*i+2], 16, 8)
+		if err != nil {
+			return nil, err
+		}
+		b[i] = byte(v)
+	}
+	return b, nil
 }
 
 var readerNameRE = regexp.MustCompile(`^(Try)?(Field)?(Scalar)?(U|S|F|FP)([0-9]+)?(E|LE|BE)?$|^(Try)?(Field)?(Scalar)?([US]BigInt(E|LE|BE)?|Bool|Unary|ULEB128|SLEB128|UTF8|UTF16|UTF16LE|UTF16BE|UTF8Null|UTF16Null|UTF16LENull|UTF16BENull|UTF8NullFixedLen|UTF8ShortString|UTF8ShortStringFixedLen|Str)$`)
@@ -465,7 +673,11 @@ func main() {
 			if err1 != nil || err2 != nil {
 				continue
 			}
-			runCase(o, shape, L, hlib.UnHex(ws[2]), pos, ws[4], ws[5], ws[6:])
+			buf, ok := expandHex(ws[2])
+			if !ok {
+				continue
+			}
+			runCaseHex(o, shape, L, buf, ws[2], pos, ws[4], ws[5], ws[6:])
 		}
 		return
 	}
